@@ -81,9 +81,11 @@ FunctorManager::Entry& FunctorManager::createOrReplace(const std::string& name, 
     {
       /* back up current declaration */
       _backed.swap(e.functor);
+      _backed_id = (unsigned)(&e - &_declarations[0]);
       return e;
     }
   }
+  _backed_id = nid;
   _declarations.emplace_back(Entry(FunctorPtr(new Functor())));
   return _declarations.back();
 }
@@ -94,12 +96,13 @@ void FunctorManager::rollback()
     return;
   if (_backed)
   {
-    /* revert last change, restoring the backed up */
-    if (_declarations.back().functor->name == _backed->name &&
-            _declarations.back().functor->params.size() == _backed->params.size())
+    /* revert last change, restoring the backed up at its place, which is
+     * not necessarily the last declared */
+    if (_backed_id < _declarations.size())
     {
-      _declarations.back().functor.swap(_backed);
-      return;
+      _declarations[_backed_id].functor.swap(_backed);
+      _backed.reset();
+      _backed_id = nid;
     }
   }
   else
